@@ -176,7 +176,7 @@ REGIONS = ("c", "o")
 class Heap:
     """Immutable snapshot of the heap."""
 
-    def __init__(self, fields=None, mem=None, alloc=None, tag="", base=None):
+    def __init__(self, fields=None, mem=None, alloc=None, tag="", base=None, meta=None):
         self.fields = dict(fields or {})
         # arrays of fields never written in this lineage; shared by all snapshots
         self.base = base if base is not None else {}
@@ -186,6 +186,9 @@ class Heap:
         self.mem = dict(mem)
         self.alloc = alloc if alloc is not None else fresh(f"alloc{tag}", I)
         self.tag = tag
+        # shared by the lineage: ids of terms known to denote entry-state references (< alloc on
+        # entry) and ids of allocation-counter constants (everything built from them is fresh)
+        self.meta = meta if meta is not None else {"$old": set(), "$allocs": {self.alloc.get_id()}}
 
     # core-region arrays under their historical names (contracts use them)
     @property
@@ -235,17 +238,45 @@ class Heap:
         h.mem[region] = (Len, El, ElX)
         return h
 
+    # -- reading an entry-state list through stores at fresh references -------------------
+    def mark_old(self, t):
+        if isinstance(t, z3.ExprRef):
+            self.meta["$old"].add(t.get_id())
+
+    def mark_alloc(self, a):
+        self.meta["$allocs"].add(a.get_id())
+
+    def _is_fresh_ref(self, idx):
+        """idx is `alloc` or `alloc + k` for an allocation-counter constant: a reference that did
+        not exist on entry"""
+        allocs = self.meta["$allocs"]
+        if idx.get_id() in allocs:
+            return True
+        if z3.is_add(idx):
+            return any(c.get_id() in allocs or self._is_fresh_ref(c) for c in idx.children()) and \
+                all(c.get_id() in allocs or z3.is_int_value(c) or self._is_fresh_ref(c) for c in idx.children())
+        return False
+
+    def _peel(self, arr, t):
+        """Select(Store(a, fresh, v), old) = Select(a, old): done syntactically so that terms (and
+        quantifier patterns built from them) do not carry irrelevant Store layers"""
+        if t.get_id() not in self.meta["$old"]:
+            return arr
+        while z3.is_store(arr) and self._is_fresh_ref(arr.arg(1)):
+            arr = arr.arg(0)
+        return arr
+
     def len(self, l):
         t, r = self._lr(l)
-        return z3.Select(self.mem[r][0], t)
+        return z3.Select(self._peel(self.mem[r][0], t), t)
 
     def elarr(self, l):
         t, r = self._lr(l)
-        return z3.Select(self.mem[r][1], t)
+        return z3.Select(self._peel(self.mem[r][1], t), t)
 
     def elxarr(self, l):
         t, r = self._lr(l)
-        return z3.Select(self.mem[r][2], t)
+        return z3.Select(self._peel(self.mem[r][2], t), t)
 
     def at(self, l, i):
         return z3.Select(self.elarr(l), i)
@@ -276,12 +307,17 @@ class Heap:
         return self.with_arrs(r, Len, El2, ElX2)
 
     def copy(self):
-        return Heap(self.fields, self.mem, self.alloc, self.tag, self.base)
+        return Heap(self.fields, self.mem, self.alloc, self.tag, self.base, self.meta)
 
     def with_alloc(self, a):
         h = self.copy()
         h.alloc = a
         return h
+
+    def fresh_alloc(self, a):
+        """a new allocation-counter constant (after a callee that allocates)"""
+        self.mark_alloc(a)
+        return self.with_alloc(a)
 
     def field_names(self):
         return sorted(set(self.fields) | set(self.base))
